@@ -267,10 +267,27 @@ def run_items(prop, tier, seed, items, expected, verbose=False,
             # contract out of reach of the engine: the clause is only checked
             # natively (bounded stand-in); isolated failures are treated as
             # floating-point noise
-            if len(fails) < 2 or len(fails) * 10 < max(valid, 1):
+            # floating-point noise unless the clause still fails when the
+            # comparison tolerance is loosened from 1e-9 to 1e-4
+            robust = []
+            try:
+                jobs = []
+                for f in fails[:40]:
+                    j = eng.job_for(f[0], f[2], f[5], [f[4]])
+                    j['rtol'] = 1e-4
+                    jobs.append(j)
+                for f, rr in zip(fails, eng.native(jobs)):
+                    if rr.get('outcome') == 'return' and \
+                            rr.get('clauses') == [False]:
+                        robust.append(f)
+            except Exception as e:
+                eng.errors.append('native re-check %s: %s' % (nm, e))
+            if not robust:
                 eng.float_noise.append({'obligation': nm, 'failed': len(fails),
                                         'valid_samples': valid, 'input': asg})
                 continue
+            (c, cfg, specs, lb, text, asg, r) = robust[0]
+            fails = robust
             ob = Obligation(nm, c.prop, text)
             ob.kind = 'bounded-native'
             eng.obligations.append(ob)
